@@ -4,6 +4,7 @@ import (
 	"fmt"
 	"go/ast"
 	"go/token"
+	"golang.org/x/tools/go/packages"
 	"os"
 	"runtime"
 	"sort"
@@ -17,8 +18,18 @@ import (
 // Explore is a development aid (not a registered check): it generates statement-order mutants of package ro
 // (two adjacent simple statements swapped), runs the union of all rules on them and prints the mutants no rule
 // reports. Many of those are equivalent (the statements commute); the rest point at ordering premises no rule covers.
-func Explore(m *model.Model, repo, filter, kind string) {
+func Explore(m *model.Model, repo, filter, kind, pkgFilter string) {
 	up := &check.Property{ID: "ALL", Patterns: CorePatterns, Scope: []string{ro}}
+	if pkgFilter != "" {
+		up.Patterns = AllPatterns()
+		up.Scope = nil
+		for _, p := range m.Pkgs {
+			if strings.Contains(p.PkgPath, pkgFilter) {
+				up.Scope = append(up.Scope, p.PkgPath)
+			}
+		}
+	}
+	explorePkgFilter = pkgFilter
 	seen := map[string]bool{}
 	for _, id := range IDs() {
 		for _, r := range registry[id]().Rules {
@@ -90,8 +101,30 @@ func Explore(m *model.Model, repo, filter, kind string) {
 	}
 }
 
+var explorePkgFilter string
+
+func explorePkgs(m *model.Model) []*packages.Package {
+	if explorePkgFilter == "" {
+		return []*packages.Package{m.Obj.Ro}
+	}
+	var out []*packages.Package
+	for _, p := range m.Pkgs {
+		if strings.Contains(p.PkgPath, explorePkgFilter) {
+			out = append(out, p)
+		}
+	}
+	return out
+}
+
 func genSwaps(m *model.Model, filter string) []mutant {
-	p := m.Obj.Ro
+	var out []mutant
+	for _, p := range explorePkgs(m) {
+		out = append(out, genSwapsPkg(m, p, filter)...)
+	}
+	return out
+}
+
+func genSwapsPkg(m *model.Model, p *packages.Package, filter string) []mutant {
 	info := p.TypesInfo
 	var out []mutant
 	simple := func(s ast.Stmt) bool {
@@ -116,12 +149,12 @@ func genSwaps(m *model.Model, filter string) []mutant {
 				continue
 			}
 			name := fd.Name.Name
-			expect := "ro." + name
+			expect := model.ShortPkg(p.PkgPath) + "." + name
 			group := ""
 			if fd.Recv != nil && len(fd.Recv.List) == 1 {
 				tn := load.RecvTypeName(fd.Recv.List[0].Type)
 				name = tn + "." + name
-				expect = "ro." + tn
+				expect = model.ShortPkg(p.PkgPath) + "." + tn
 				group = tn
 			}
 			if filter != "" && !strings.Contains(name, filter) {
@@ -193,7 +226,14 @@ func oneLine(s string) string {
 
 // genDeletes: every expression statement that is a call is removed.
 func genDeletes(m *model.Model, filter string) []mutant {
-	p := m.Obj.Ro
+	var out []mutant
+	for _, p := range explorePkgs(m) {
+		out = append(out, genDeletesPkg(m, p, filter)...)
+	}
+	return out
+}
+
+func genDeletesPkg(m *model.Model, p *packages.Package, filter string) []mutant {
 	var out []mutant
 	for _, f := range p.Syntax {
 		fname := m.Prog.Fset.Position(f.Pos()).Filename
@@ -210,12 +250,12 @@ func genDeletes(m *model.Model, filter string) []mutant {
 				continue
 			}
 			name := fd.Name.Name
-			expect := "ro." + name
+			expect := model.ShortPkg(p.PkgPath) + "." + name
 			group := ""
 			if fd.Recv != nil && len(fd.Recv.List) == 1 {
 				tn := load.RecvTypeName(fd.Recv.List[0].Type)
 				name = tn + "." + name
-				expect = "ro." + tn
+				expect = model.ShortPkg(p.PkgPath) + "." + tn
 				group = tn
 			}
 			if filter != "" && !strings.Contains(name, filter) {
